@@ -243,36 +243,381 @@ Proof.
   destruct (sized_by_opcode sized_table (b2n b)) as [size|] eqn:S1.
   - destruct (sized_opcode_fact _ _ S1) as [-> R].
     rewrite Nat.add_1_r, slice_skipn in H.
-    destruct (length (firstn (N.to_nat (b2n b)) (skipn (S pc) s)) <? N.to_nat (b2n b))%nat eqn:E; [discriminate|].
+    remember (skipn (S pc) s) as t1 eqn:Et1.
+    destruct (length (firstn (N.to_nat (b2n b)) t1) <? N.to_nat (b2n b))%nat eqn:E; [discriminate|].
     destruct (firstn_len_split _ _ E) as [SP LN].
+    remember (firstn (N.to_nat (b2n b)) t1) as dd eqn:Edd.
     match type of H with (if ?c then _ else _) = _ => destruct c end; [discriminate|].
-    injection H as _ <- <- _.
-    rewrite spec_push_direct by lia. rewrite LN. rewrite N2N.id, n2b_b2n.
+    injection H as _ -> <- _.
+    rewrite spec_push_direct by lia. rewrite LN. rewrite N2Nat.id, n2b_b2n.
     split; [|cbn [length]; lia].
     rewrite SK. cbn [app]. f_equal.
-    replace (S pc + N.to_nat (b2n b))%nat with (S pc + N.to_nat (b2n b))%nat by lia.
-    rewrite skipn_add. exact SP.
+    change (S (pc + N.to_nat (b2n b))) with (S pc + N.to_nat (b2n b))%nat. rewrite skipn_add, <- Et1. exact SP.
   - destruct (var_by_opcode variable_table (b2n b)) as [[w ms]|] eqn:V1; [|discriminate].
     rewrite Nat.add_1_r, slice_skipn in H.
-    destruct (length (firstn w (skipn (S pc) s)) <? w)%nat eqn:E; [discriminate|].
+    remember (skipn (S pc) s) as t1 eqn:Et1.
+    destruct (length (firstn w t1) <? w)%nat eqn:E; [discriminate|].
     destruct (firstn_len_split _ _ E) as [SP LN].
-    set (lenb := firstn w (skipn (S pc) s)) in *.
+    remember (firstn w t1) as lenb eqn:Elenb.
     destruct (N.of_nat (length s - (S pc + w)) <? le_decode lenb) eqn:E2; [discriminate|].
     rewrite slice_skipn in H.
-    destruct (length (firstn (N.to_nat (le_decode lenb)) (skipn (S pc + w) s)) <? N.to_nat (le_decode lenb))%nat eqn:E3; [discriminate|].
+    remember (skipn (S pc + w) s) as t2 eqn:Et2.
+    destruct (length (firstn (N.to_nat (le_decode lenb)) t2) <? N.to_nat (le_decode lenb))%nat eqn:E3; [discriminate|].
     destruct (firstn_len_split _ _ E3) as [SP2 LN2].
+    remember (firstn (N.to_nat (le_decode lenb)) t2) as dd eqn:Edd.
     destruct (is_sized_value sized_table (le_decode lenb) || (le_decode lenb <=? ms)) eqn:E4; [discriminate|].
-    cbn [andb] in H. injection H as _ <- <- _.
-    apply orb_false_iff in E4. destruct E4 as [_ E4].
+    cbn [andb] in H. injection H as _ -> <- _.
+    apply orb_false_iff in E4. destruct E4 as [E4a E4].
     destruct (var_opcode_fact _ _ _ V1) as [(Ho & -> & ->)|[(Ho & -> & ->)|(Ho & -> & ->)]]; try lia.
     (* PUSHDATA1 *)
     assert (Hb : b = x4c) by (apply b2n_inj; rewrite Ho; reflexivity).
-    destruct lenb as [|c [|? ?]] eqn:EL; cbn [length] in LN; try lia.
+    destruct lenb as [|c [|? ?]]; cbn [length] in LN; try lia.
     cbn [le_decode] in *. replace (b2n c + 256 * 0) with (b2n c) in * by lia.
-    rewrite spec_push_pushdata1 by lia. rewrite LN2, N2N.id, n2b_b2n.
+    assert (75 < b2n c).
+    { destruct (N.ltb_spec 75 (b2n c)) as [|Q]; [assumption|]. unfold is_sized_value in E4a.
+      rewrite sized_small in E4a by lia. discriminate. }
+    pose proof (b2n_lt c).
+    rewrite spec_push_pushdata1 by lia. rewrite LN2, N2Nat.id, n2b_b2n.
     split; [|cbn [length]; lia].
     rewrite SK, Hb. cbn [app]. f_equal. rewrite SP. cbn [app]. f_equal.
-    rewrite SP2 at 1. f_equal.
-    replace (S pc + 1 + N.to_nat (b2n c))%nat with (S pc + (1 + N.to_nat (b2n c)))%nat by lia.
-    rewrite (skipn_add (S pc)), (skipn_add 1). rewrite <- (skipn_add (S pc) 1). reflexivity.
+    assert (Q : skipn 1 t1 = t2).
+    { rewrite Et1, Et2. rewrite <- skipn_add. reflexivity. }
+    rewrite Q. rewrite SP2 at 1. f_equal.
+    rewrite Et2. rewrite <- skipn_add. reflexivity.
+Qed.
+
+(* ============================ ContractAPI.match against a decoded template ============================ *)
+Definition titem := (N * option bytes)%type.
+
+(* the template's own instruction list (decoded without the minimal-push rule, as match does) *)
+Fixpoint decode_items (fuel : nat) (t : bytes) (pc : nat) : option (list titem) :=
+  match fuel with
+  | O => None
+  | S f =>
+    if (pc =? length t)%nat then Some []
+    else if (length t <? pc)%nat then None
+    else match btc_get_opcode t pc false with
+         | Ret (o, d, pc', _) => option_map (cons (o, d)) (decode_items f t pc')
+         | _ => None
+         end
+  end.
+
+(* the loop of match with the template pre-decoded: only the script is walked *)
+Fixpoint match_items (items : list titem) (script : bytes) (pc1 : nat) (r : captures) : outcome (option captures) :=
+  match items with
+  | [] => Ret (if (pc1 =? length script)%nat then Some r else None)
+  | it :: rest =>
+    if (length script <=? pc1)%nat then Ret None else
+    match btc_get_opcode script pc1 true with
+    | Raise E_SCRIPT => Ret None
+    | Raise e => Raise e
+    | OutOfFuel => OutOfFuel
+    | Ret (o1, d1, pc1', _) =>
+      match step_item it o1 d1 r with
+      | None => Ret None
+      | Some r' => match_items rest script pc1' r'
+      end
+    end
+  end.
+
+Lemma match_loop_items t s : forall fuel0 items pc2, decode_items fuel0 t pc2 = Some items ->
+  forall fuel pc1 r, (length s - pc1 < fuel)%nat ->
+  match_loop fuel t s pc1 pc2 r = match_items items s pc1 r.
+Proof.
+  induction fuel0 as [|f0 IH]; intros items pc2 D; [discriminate|].
+  cbn [decode_items] in D.
+  destruct (pc2 =? length t)%nat eqn:E1.
+  - injection D as <-. intros fuel pc1 r F. destruct fuel as [|fuel]; [lia|].
+    cbn [match_loop match_items]. rewrite E1, andb_true_r.
+    destruct (pc1 =? length s)%nat; [reflexivity|].
+    replace (length t <=? pc2)%nat with true by lia. rewrite orb_true_r. reflexivity.
+  - destruct (length t <? pc2)%nat eqn:E2; [discriminate|].
+    destruct (btc_get_opcode t pc2 false) as [[[[o2 d2] pc2'] ok2]| |] eqn:G2; try discriminate.
+    destruct (decode_items f0 t pc2') as [rest|] eqn:D2; [|discriminate].
+    cbn [option_map] in D. injection D as <-.
+    intros fuel pc1 r F. destruct fuel as [|fuel]; [lia|].
+    cbn [match_loop match_items]. rewrite E1, andb_false_r.
+    replace (length t <=? pc2)%nat with false by lia. rewrite orb_false_r.
+    destruct (length s <=? pc1)%nat eqn:E3; [reflexivity|].
+    destruct (btc_get_opcode s pc1 true) as [[[[o1 d1] pc1'] ok1]|e|] eqn:G1; [|reflexivity|reflexivity].
+    rewrite G2. cbn [bind].
+    destruct (step_item (o2, d2) o1 d1 r) as [r'|]; [|reflexivity].
+    apply (IH _ _ D2). apply get_opcode_pc_lt in G1. lia.
+Qed.
+
+(* the loop never runs out of fuel with S (length script) *)
+Lemma match_loop_fuel_ok t s : forall fuel pc1 pc2 r, (length s - pc1 < fuel)%nat ->
+  match_loop fuel t s pc1 pc2 r <> OutOfFuel.
+Proof.
+  induction fuel as [|fuel IH]; intros pc1 pc2 r F; [lia|].
+  cbn [match_loop].
+  destruct ((pc1 =? length s)%nat && (pc2 =? length t)%nat); [discriminate|].
+  destruct ((length s <=? pc1)%nat || (length t <=? pc2)%nat) eqn:E; [discriminate|].
+  destruct (btc_get_opcode s pc1 true) as [[[[o1 d1] pc1'] ok1]|e|] eqn:G1.
+  - destruct (btc_get_opcode t pc2 false) as [[[[o2 d2] pc2'] ok2]|e|] eqn:G2; cbn [bind].
+    + destruct (step_item (o2, d2) o1 d1 r); [|discriminate]. apply IH. apply get_opcode_pc_lt in G1. lia.
+    + discriminate.
+    + now apply get_opcode_fuel in G2.
+  - destruct e; discriminate.
+  - now apply get_opcode_fuel in G1.
+Qed.
+
+(* ---- classes of template instructions ---- *)
+Inductive iclass := ILit (o : N) | ICap (k : cap).
+
+Definition cap_len_ok (k : cap) (l : nat) : bool :=
+  match k with
+  | CPubkey => negb ((l <? pubkey_len_min)%nat || (pubkey_len_max <? l)%nat)
+  | CPubkeyHash => (l =? pubkeyhash_len)%nat
+  | CSegwit => existsb (Nat.eqb l) segwit_lens
+  | CSynth => (l =? synthetic_key_len)%nat
+  | CData => false
+  end.
+
+(* the generated bounds keep every captured value within 2..255 bytes (the range of get_opcode_push) *)
+Lemma cap_len_range k l : cap_len_ok k l = true -> (20 <= l <= 120)%nat.
+Proof.
+  destruct k; unfold cap_len_ok, pubkey_len_min, pubkey_len_max, pubkeyhash_len, segwit_lens, synthetic_key_len;
+    cbn [existsb]; intros H; try discriminate; lia.
+Qed.
+
+Definition item_class (it : titem) : option iclass :=
+  let '(o, d) := it in
+  if data_is d (ph 0) then Some (ICap CPubkey)
+  else if data_is d (ph 1) then Some (ICap CPubkeyHash)
+  else if data_is d (ph 2) then Some (ICap CSegwit)
+  else if data_is d (ph 3) then None
+  else if data_is d (ph 4) then Some (ICap CSynth)
+  else if is_single o && (o <? 256) && opt_bytes_eq d (const_by_opcode const_table o) then Some (ILit o)
+  else None.
+
+Lemma opt_bytes_eq_true a b : opt_bytes_eq a b = true <-> a = b.
+Proof.
+  destruct a, b; cbn; try (split; congruence). rewrite bytes_eqb_eq. split; congruence.
+Qed.
+
+Lemma step_item_lit it o o1 d1 r : item_class it = Some (ILit o) ->
+  is_single o = true /\ o < 256 /\
+  step_item it o1 d1 r = if (o1 =? o) && opt_bytes_eq d1 (const_by_opcode const_table o) then Some r else None.
+Proof.
+  destruct it as [o2 d2]. unfold item_class, step_item.
+  destruct (data_is d2 (ph 0)); [discriminate|]. destruct (data_is d2 (ph 1)); [discriminate|].
+  destruct (data_is d2 (ph 2)); [discriminate|]. destruct (data_is d2 (ph 3)); [discriminate|].
+  destruct (data_is d2 (ph 4)); [discriminate|].
+  destruct (is_single o2 && (o2 <? 256) && opt_bytes_eq d2 (const_by_opcode const_table o2)) eqn:E; [|discriminate].
+  intros H; injection H as <-.
+  apply andb_true_iff in E. destruct E as [E E3]. apply andb_true_iff in E. destruct E as [E1 E2].
+  apply opt_bytes_eq_true in E3. subst d2. repeat split; [assumption|lia|].
+  destruct ((o1 =? o2) && opt_bytes_eq d1 (const_by_opcode const_table o2)); reflexivity.
+Qed.
+
+Lemma step_item_cap it k o1 d1 r : item_class it = Some (ICap k) ->
+  step_item it o1 d1 r = if cap_len_ok k (opt_len d1) then Some (r ++ [(k, d1)]) else None.
+Proof.
+  destruct it as [o2 d2]. unfold item_class, step_item, cap_len_ok.
+  destruct (data_is d2 (ph 0)).
+  { intros H; injection H as <-. destruct ((opt_len d1 <? pubkey_len_min)%nat || (pubkey_len_max <? opt_len d1)%nat); reflexivity. }
+  destruct (data_is d2 (ph 1)).
+  { intros H; injection H as <-. destruct (opt_len d1 =? pubkeyhash_len)%nat; reflexivity. }
+  destruct (data_is d2 (ph 2)).
+  { intros H; injection H as <-. destruct (existsb (Nat.eqb (opt_len d1)) segwit_lens); reflexivity. }
+  destruct (data_is d2 (ph 3)); [discriminate|].
+  destruct (data_is d2 (ph 4)).
+  { intros H; injection H as <-. destruct (opt_len d1 =? synthetic_key_len)%nat; reflexivity. }
+  destruct (is_single o2 && (o2 <? 256) && opt_bytes_eq d2 (const_by_opcode const_table o2)); discriminate.
+Qed.
+
+(* the script a classified template denotes for given captured values *)
+Fixpoint render (cls : list iclass) (caps : list bytes) : bytes :=
+  match cls with
+  | [] => []
+  | ILit o :: r => n2b o :: render r caps
+  | ICap _ :: r => match caps with c :: caps' => spec_push c ++ render r caps' | [] => [] end
+  end.
+Fixpoint caps_list (cls : list iclass) (caps : list bytes) : captures :=
+  match cls with
+  | [] => []
+  | ILit _ :: r => caps_list r caps
+  | ICap k :: r => match caps with c :: caps' => (k, Some c) :: caps_list r caps' | [] => [] end
+  end.
+Fixpoint caps_ok (cls : list iclass) (caps : list bytes) : Prop :=
+  match cls with
+  | [] => caps = []
+  | ILit _ :: r => caps_ok r caps
+  | ICap k :: r => match caps with c :: caps' => cap_len_ok k (length c) = true /\ caps_ok r caps' | [] => False end
+  end.
+
+Lemma match_items_sound : forall items cls, map item_class items = map Some cls ->
+  forall s pc r r', match_items items s pc r = Ret (Some r') ->
+  exists caps, caps_ok cls caps /\ r' = r ++ caps_list cls caps /\ skipn pc s = render cls caps.
+Proof.
+  induction items as [|it items IH]; intros cls HC s pc r r' H.
+  - destruct cls; [|discriminate]. cbn [match_items] in H.
+    destruct (pc =? length s)%nat eqn:E; [|discriminate]. injection H as <-.
+    exists []. cbn. rewrite app_nil_r. repeat split. apply Nat.eqb_eq in E. subst. apply skipn_all.
+  - destruct cls as [|c cls]; [discriminate|]. cbn [map] in HC. injection HC as HC1 HC2.
+    cbn [match_items] in H.
+    destruct (length s <=? pc)%nat eqn:E; [discriminate|].
+    destruct (btc_get_opcode s pc true) as [[[[o1 d1] pc1'] ok1]|e|] eqn:G1; [| destruct e; discriminate | discriminate].
+    destruct c as [o|k].
+    + destruct (step_item_lit it o o1 d1 r HC1) as (S1 & Lo & ST). rewrite ST in H.
+      destruct ((o1 =? o) && opt_bytes_eq d1 (const_by_opcode const_table o)) eqn:E2; [|discriminate].
+      apply andb_true_iff in E2. destruct E2 as [E2 E3]. apply N.eqb_eq in E2. subst o1.
+      destruct (get_opcode_single_inv _ _ _ _ _ _ _ G1 S1) as (N1 & _ & _ & ->).
+      destruct (IH cls HC2 _ _ _ _ H) as (caps & OK & -> & SK).
+      exists caps. cbn [caps_ok caps_list render]. repeat split; auto.
+      rewrite (nth_error_skipn _ _ _ N1), SK. reflexivity.
+    + rewrite (step_item_cap it k o1 d1 r HC1) in H.
+      destruct (cap_len_ok k (opt_len d1)) eqn:E2; [|discriminate].
+      pose proof (cap_len_range _ _ E2) as RG.
+      destruct d1 as [c|]; [|cbn in RG; lia]. cbn [opt_len] in *.
+      destruct (get_opcode_push_inv _ _ _ _ _ _ G1 ltac:(lia)) as [SK1 ->].
+      destruct (IH cls HC2 _ _ _ _ H) as (caps & OK & -> & SK).
+      exists (c :: caps). cbn [caps_ok caps_list render]. repeat split; auto.
+      * rewrite <- app_assoc. reflexivity.
+      * rewrite SK1, SK. reflexivity.
+Qed.
+
+Lemma match_items_complete : forall items cls, map item_class items = map Some cls ->
+  forall caps s pc r, caps_ok cls caps -> skipn pc s = render cls caps -> (pc <= length s)%nat ->
+  match_items items s pc r = Ret (Some (r ++ caps_list cls caps)).
+Proof.
+  induction items as [|it items IH]; intros cls HC caps s pc r OK SK LE.
+  - destruct cls; [|discriminate]. cbn in OK. subst caps. cbn [match_items caps_list render] in *.
+    assert (length (skipn pc s) = 0%nat) by (rewrite SK; reflexivity). rewrite skipn_length in H.
+    replace (pc =? length s)%nat with true by lia. now rewrite app_nil_r.
+  - destruct cls as [|c cls]; [discriminate|]. cbn [map] in HC. injection HC as HC1 HC2.
+    cbn [match_items]. destruct c as [o|k].
+    + cbn [caps_ok caps_list render] in *.
+      destruct (skipn_hd _ _ _ _ SK) as (N1 & T & LT).
+      replace (length s <=? pc)%nat with false by lia.
+      destruct (step_item_lit it o o (const_by_opcode const_table o) r HC1) as (S1 & Lo & ST).
+      rewrite (get_opcode_single s pc true _ N1) by (rewrite b2n_n2b by exact Lo; exact S1).
+      rewrite b2n_n2b by exact Lo. rewrite ST, N.eqb_refl.
+      replace (opt_bytes_eq (const_by_opcode const_table o) (const_by_opcode const_table o)) with true
+        by (symmetry; now apply opt_bytes_eq_true).
+      cbn [andb]. apply IH; auto.
+    + cbn [caps_ok caps_list render] in *. destruct caps as [|c caps]; [contradiction|]. destruct OK as [OK1 OK2].
+      pose proof (cap_len_range _ _ OK1) as RG.
+      destruct (get_opcode_push s pc c _ ltac:(lia) SK) as [o G].
+      assert (pc < length s)%nat.
+      { destruct (skipn_prefix_len _ _ _ _ SK) as [Q|Q].
+        - rewrite spec_push_length in Q by lia. destruct (length c <=? 75)%nat; lia.
+        - pose proof (spec_push_length c ltac:(lia)) as Q2. rewrite Q in Q2. cbn in Q2. destruct (length c <=? 75)%nat; lia. }
+      replace (length s <=? pc)%nat with false by lia. rewrite G.
+      rewrite (step_item_cap it k o (Some c) r HC1). cbn [opt_len]. rewrite OK1.
+      rewrite (IH cls HC2 caps s _ _ OK2).
+      * rewrite <- app_assoc. reflexivity.
+      * now apply skipn_app_prefix.
+      * destruct (skipn_prefix_len _ _ _ _ SK) as [Q|Q]; [exact Q|].
+        pose proof (spec_push_length c ltac:(lia)) as Q2. rewrite Q in Q2. cbn in Q2. destruct (length c <=? 75)%nat; lia.
+Qed.
+
+(* match_items never raises: get_opcode is only asked inside the script *)
+Lemma match_items_total : forall items s pc r, exists d, match_items items s pc r = Ret d.
+Proof.
+  induction items as [|it items IH]; intros s pc r; cbn [match_items]; [eauto|].
+  destruct (length s <=? pc)%nat eqn:E; [eauto|].
+  destruct (btc_get_opcode s pc true) as [[[[o1 d1] pc1'] ok1]|e|] eqn:G1.
+  - destruct (step_item it o1 d1 r); eauto.
+  - destruct (get_opcode_raises _ _ _ _ G1) as [->|[-> Q]]; [eauto|lia].
+  - now apply get_opcode_fuel in G1.
+Qed.
+
+(* ============================ the five templates of info_for_script ============================ *)
+Lemma opcode_names_agree :
+  map (fun e : string * N => (list_byte_of_string (fst e), snd e)) opcode_list = opcode_names.
+Proof. vm_compute. reflexivity. Qed.
+
+Definition tmpl_cls (k : nat) : list iclass :=
+  match k with
+  | 0%nat => [ILit 118; ILit 169; ICap CPubkeyHash; ILit 136; ILit 172]
+  | 1%nat => [ILit 0; ICap CSegwit]
+  | 2%nat => [ILit 169; ICap CPubkeyHash; ILit 135]
+  | 3%nat => [ICap CPubkey; ILit 172]
+  | _ => [ILit 81; ICap CSynth]
+  end.
+
+(* compiled template, its decoded instruction list and their classes: all by computation on the GENERATED literals *)
+Fixpoint cls_eqb (a : list (option iclass)) (b : list iclass) : bool :=
+  match a, b with
+  | [], [] => true
+  | Some (ILit x) :: a', ILit y :: b' => (x =? y) && cls_eqb a' b'
+  | Some (ICap x) :: a', ICap y :: b' => cap_eqb x y && cls_eqb a' b'
+  | _, _ => false
+  end.
+Lemma cls_eqb_eq a b : cls_eqb a b = true -> a = map Some b.
+Proof.
+  revert b; induction a as [|x a IH]; intros [|y b] H; cbn [cls_eqb map] in *; try discriminate; auto.
+  - destruct x as [[?|?]|]; discriminate.
+  - destruct x as [[x|x]|]; destruct y as [y|y]; try discriminate;
+      apply andb_true_iff in H; destruct H as [H1 H2]; rewrite (IH _ H2); f_equal; f_equal; f_equal.
+    + now apply N.eqb_eq.
+    + destruct x, y; cbn in H1; congruence.
+Qed.
+Definition tmpl_ok (k : nat) : bool :=
+  match compile_template (tmpl k) with
+  | Ret t =>
+    match decode_items (S (length t)) t 0 with
+    | Some items => cls_eqb (map item_class items) (tmpl_cls k)
+    | None => false
+    end
+  | _ => false
+  end.
+Lemma tmpl_ok_all : forallb tmpl_ok [0; 1; 2; 3; 4]%nat = true /\ length match_templates = 5%nat.
+Proof. split; vm_compute; reflexivity. Qed.
+
+Lemma tmpl_facts k : (k < 5)%nat -> exists t items, compile_template (tmpl k) = Ret t /\
+  decode_items (S (length t)) t 0 = Some items /\ map item_class items = map Some (tmpl_cls k).
+Proof.
+  intros Hk. destruct tmpl_ok_all as [A _].
+  assert (In k [0; 1; 2; 3; 4]%nat) by (cbn; lia).
+  pose proof (proj1 (forallb_forall _ _) A _ H) as K. unfold tmpl_ok in K.
+  destruct (compile_template (tmpl k)) as [t| |]; try discriminate.
+  destruct (decode_items (S (length t)) t 0) as [items|]; [|discriminate].
+  exists t, items. repeat split. now apply cls_eqb_eq.
+Qed.
+
+Lemma contract_match_items k : (k < 5)%nat -> exists items, map item_class items = map Some (tmpl_cls k) /\
+  forall s, contract_match (tmpl k) s = match_items items s 0 [].
+Proof.
+  intros Hk. destruct (tmpl_facts k Hk) as (t & items & CT & DI & CL).
+  exists items. split; [exact CL|]. intros s. unfold contract_match. rewrite CT. cbn [bind].
+  unfold match_compiled. apply (match_loop_items t s _ _ _ DI). lia.
+Qed.
+
+(* soundness and completeness of a template match, in terms of the rendered script *)
+Lemma contract_match_sound k s r : (k < 5)%nat -> contract_match (tmpl k) s = Ret (Some r) ->
+  exists caps, caps_ok (tmpl_cls k) caps /\ r = caps_list (tmpl_cls k) caps /\ s = render (tmpl_cls k) caps.
+Proof.
+  intros Hk H. destruct (contract_match_items k Hk) as (items & CL & EQ). rewrite EQ in H.
+  destruct (match_items_sound items _ CL _ _ _ _ H) as (caps & OK & R & SK). exists caps. auto.
+Qed.
+Lemma contract_match_complete k caps : (k < 5)%nat -> caps_ok (tmpl_cls k) caps ->
+  contract_match (tmpl k) (render (tmpl_cls k) caps) = Ret (Some (caps_list (tmpl_cls k) caps)).
+Proof.
+  intros Hk OK. destruct (contract_match_items k Hk) as (items & CL & EQ). rewrite EQ.
+  apply (match_items_complete items _ CL caps _ 0%nat [] OK); [reflexivity|lia].
+Qed.
+Lemma contract_match_total k s : (k < 5)%nat -> exists d, contract_match (tmpl k) s = Ret d.
+Proof.
+  intros Hk. destruct (contract_match_items k Hk) as (items & CL & EQ). rewrite EQ. apply match_items_total.
+Qed.
+
+(* a template does not match (or matches without capture) a script that is not of its shape *)
+Lemma contract_match_reject k s : (k < 5)%nat ->
+  (forall caps, caps_ok (tmpl_cls k) caps -> s <> render (tmpl_cls k) caps) ->
+  exists d, contract_match (tmpl k) s = Ret d /\ truthy d = false.
+Proof.
+  intros Hk NE. destruct (contract_match_total k s Hk) as [d H]. exists d. split; [exact H|].
+  destruct d as [r|]; [|reflexivity].
+  destruct (contract_match_sound k s r Hk H) as (caps & OK & _ & E). exfalso. exact (NE caps OK E).
+Qed.
+
+Lemma spec_push_head d : (2 <= length d <= 255)%nat -> exists b t, spec_push d = b :: t /\
+  (2 <= b2n b <= 76).
+Proof.
+  intros H. destruct (length d <=? 75)%nat eqn:E.
+  - rewrite spec_push_direct by lia. eexists _, _. split; [reflexivity|]. rewrite b2n_n2b by lia. lia.
+  - rewrite spec_push_pushdata1 by lia. eexists _, _. split; [reflexivity|]. vm_compute. split; discriminate.
 Qed.
